@@ -65,25 +65,43 @@ def main():
         report.get("valid"), report.get("demo_without_patch"), report.get("demo_with_patch"), report.get("suite")))
     if not report["valid"]:
         return 1
-    # ---- run the checks against the patched /repo
-    rc, out = sh(["git", "-C", REPO, "status", "--porcelain"])
-    if out.strip():
-        print(json.dumps({"step": "error", "msg": "/repo is not clean", "status": out}))
-        return 2
+    # ---- run the checks against the patched tree
     results = {}
+    scratch_ev = tempfile.mkdtemp(prefix="seedtest-ev-", dir="/tmp")
+    if "isolated" in opts:
+        # a private worktree with the patch applied, handed to the checks through LUQUM_REPO: /repo itself is
+        # not touched (used while other jobs read /repo); evidence goes to a scratch directory
+        target = tempfile.mkdtemp(prefix="seedtest-wt-", dir="/tmp")
+        os.rmdir(target)
+        rc, out = sh(["git", "-C", REPO, "worktree", "add", "-q", "--detach", target, "HEAD"])
+        assert rc == 0, out
+    else:
+        target = REPO
+        rc, out = sh(["git", "-C", REPO, "status", "--porcelain"])
+        if out.strip():
+            print(json.dumps({"step": "error", "msg": "/repo is not clean", "status": out}))
+            return 2
     try:
-        rc, out = sh(["git", "-C", REPO, "apply", patch])
+        rc, out = sh(["git", "-C", target, "apply", patch])
         assert rc == 0, out
         for prop in props:
             for seed in seeds:
-                env = dict(os.environ, VERIF_SEED=str(seed), VERIF_NO_LEANCHECKER="1")
+                env = dict(os.environ, VERIF_SEED=str(seed), VERIF_NO_LEANCHECKER="1", LUQUM_REPO=target,
+                           VERIF_EVIDENCE_DIR=scratch_ev)
                 rc, out = sh(["./check", prop, "--tier", tier], cwd=VERIF, env=env, timeout=7200)
                 lines = [l for l in out.split("\n") if l.startswith("VIOLATION") or l.startswith(prop + " ")]
                 first = next((l for l in out.split("\n") if l.startswith("  {") or l.startswith("  [")), "")
                 results["%s/seed%d" % (prop, seed)] = {"exit": rc, "lines": lines, "detail": first[:700]}
     finally:
-        sh(["git", "-C", REPO, "checkout", "--", "."])
-        sh(["git", "-C", REPO, "clean", "-fdq", "luqum"])
+        shutil.rmtree(scratch_ev, ignore_errors=True)
+        if target == REPO:
+            sh(["git", "-C", REPO, "checkout", "--", "."])
+            sh(["git", "-C", REPO, "clean", "-fdq", "luqum"])
+        else:
+            sh(["git", "-C", REPO, "worktree", "remove", "--force", target])
+            shutil.rmtree(target, ignore_errors=True)
+        # the generated Lean data must describe the unchanged tree again
+        sh(["/venv/bin/python", "-c", "from tools import translate; translate.regenerate()"], cwd=VERIF)
     for k, v in results.items():
         print("CHECK %s exit=%d %s" % (k, v["exit"], " | ".join(v["lines"])[:330]))
         if v["detail"]:
